@@ -124,9 +124,22 @@ func catalogue() []entry {
 		}},
 		{"bits", func(c *ctx) *ce.Node {
 			if !c.invalid {
+				if c.tr.Family == ce.FamRetarget || c.tr.Family == ce.FamRetarget94 {
+					return c.tr.Extend(c.parent, ce.BlockOpt{TimeDelta: rapid.SampledFrom([]int64{1, 9, 20, 21, 30, 161}).Draw(c.t, "dtBits")})
+				}
 				return c.tr.Extend(c.parent, ce.BlockOpt{})
 			}
-			switch rapid.IntRange(0, 3).Draw(c.t, "bitsKind") {
+			switch rapid.IntRange(0, 4).Draw(c.t, "bitsKind") {
+			case 4:
+				// the difficulty a plausible wrong rule would ask for here (parent's bits, minimum
+				// difficulty, retarget from the other end of the period, non-retarget rule at a retarget height)
+				dtAlt := rapid.SampledFrom([]int64{1, 9, 21, 30}).Draw(c.t, "dtAlt")
+				alts := c.tr.AltBits(c.parent, c.parent.Time()+dtAlt)
+				if len(alts) == 0 {
+					return c.tr.Extend(c.parent, ce.BlockOpt{Break: "bad-bits"})
+				}
+				alt := alts[rapid.IntRange(0, len(alts)-1).Draw(c.t, "altBits")]
+				return c.tr.Extend(c.parent, ce.BlockOpt{TimeDelta: dtAlt, Mutate: func(m *wire.MsgBlock) { m.Header.Bits = alt }, Label: ce.InvalidContext, Rule: "bits-of-a-wrong-rule"})
 			case 0:
 				return c.tr.Extend(c.parent, ce.BlockOpt{Break: "bad-bits"})
 			case 1: // above the proof-of-work limit
